@@ -87,6 +87,8 @@ def eq(x, y):
         return isinstance(y, (float, np.floating)) and np.isnan(y)    
     elif isinstance(x, partial):
         return type(x) == type(y) and x.func == y.func and eq(x.keywords, y.keywords) and eq(x.args, y.args)
+    elif isinstance(y, (tuple, list, np.ndarray, pd.DataFrame, pd.Series, dict)) and (isinstance(x, str) or not hasattr(x, '__len__')):
+        return False ## x is a scalar and == would broadcast it against the container
     else:
         try:
             res = x == y
